@@ -83,13 +83,41 @@ def linear_form(f, e, elem_of, subst=None, depth=0):
             return
         if k == "CXXMemberCallExpr" and not cfg.args(e):
             r = cfg.receiver(e)
+            if r is not None and strip(r)["k"] == "DeclRefExpr" and strip(r).get("var") in psub:
+                r = psub[strip(r)["var"]]       # parameter of an inlined size helper -> the caller's argument
             if r is not None and elem_of(r):
                 F.add_atom("%s(elem)" % e.get("cname"), sign)
                 return
+        if k == "DeclRefExpr" and e.get("var") in psub:
+            go(psub[e["var"]], sign)
+            return
         if k == "DeclRefExpr" and subst and e.get("var") in subst and depth < 4:
             go(subst[e["var"]], sign)
             return
+        if k == "CallExpr" and e.get("callee") and not e.get("ext") and len(stack) < 3:
+            # a small pure helper `T size_of(const option& o) { return EXPR; }` is its return expression
+            db = facts.db_of(f)
+            h = db.fn(e["callee"]) if db is not None else None
+            if h is not None and h.get("body") and h["id"] not in stack:
+                hn = list(facts.fn_nodes(h))
+                rets = [x for x in hn if x["k"] == "ReturnStmt" and x.get("c")]
+                pure = len(hn) < 40 and len(rets) == 1 and not any(
+                    x["k"] in ("CompoundAssignOperator", "IfStmt", "ForStmt", "WhileStmt", "DoStmt", "SwitchStmt", "CXXThrowExpr", "DeclStmt") or
+                    (x["k"] == "BinaryOperator" and x.get("op") == "=") or (x["k"] == "UnaryOperator" and x.get("op") in ("++", "--"))
+                    for x in hn)
+                if pure and len(h.get("params", ())) == len(cfg.args(e)):
+                    saved = dict(psub)
+                    for p_, a_ in zip(h["params"], cfg.args(e)):
+                        a0 = strip(a_)
+                        psub[p_["var"]] = psub.get(a0.get("var"), a_) if a0["k"] == "DeclRefExpr" else a_
+                    stack.append(h["id"])
+                    go(rets[0]["c"][0], sign)
+                    stack.pop()
+                    psub.clear()
+                    psub.update(saved)
+                    return
         F.add_atom("expr:" + facts.expr_str(e), sign)
+    psub, stack = {}, []
     go(e, 1)
     return F
 
